@@ -44,7 +44,14 @@ theorem LoginResult.sameOutcome_of_eq {x y : LoginResult} (h : x = y) : x.sameOu
 
 /-! ### the two primitives that differ between the back ends -/
 
-/-- **`modpow` agrees**: the two back ends return the same number whenever either returns one … -/
+/-- **`modpow` agrees**: the two back ends return the same number whenever either returns one …
+    NOTE: `Backend.modpow` is ONE definition for both back ends, so this theorem alone only says that
+    the shared definition does not look at the back end except for the panic label. That each library
+    really computes this shared definition is proved in `Props/C19Backends.lean`
+    (`C19_num_modpow_faithful`, `C19_rug_modpow_faithful`,
+    `C19_backends_agree_from_library_semantics`) from separate per-library definitions
+    (`Model/BigIntLib.lean`: num-bigint's magnitude power with sign fix-up; rug's
+    `secure_pow_mod` / `pow_mod` branch over GMP's Euclidean residue). -/
 theorem C19_modpow_agree (base : Int) (e m r : Nat) :
     Backend.num.modpow base e m = .ok r ↔ Backend.rug.modpow base e m = .ok r := by
   unfold Backend.modpow
